@@ -527,7 +527,18 @@ func checkC17(c *Ctx, r *Report) {
 		sort.Strings(badU)
 		r.Check(len(badU) == 0 && len(updRoots) >= 4, "C17.R4", "API updates never clear or replace a command-line override", "-", fmt.Sprintf("%d functions reachable from the update path; none writes the override", len(ureach)), "the update path reaches "+strings.Join(badU, ", ")+": an API update drops the command-line override")
 		for _, f := range c.FuncsNamed("(*" + configPkg + ".ConfigProp).Stage") {
-			r.Check(findCall(f, "(*"+configPkg+".overwritable).SetNoClear") != nil, "C17.R4", "Stage keeps the override (SetNoClear on a copy of the committed cell)", c.Pos(f.Pos()), "SetNoClear", "Stage does not use SetNoClear")
+			usesNoClear := false
+			for _, g := range append([]*ssa.Function{f}, f.AnonFuncs...) {
+				if findCall(g, "(*"+configPkg+".overwritable).SetNoClear") != nil {
+					usesNoClear = true
+				}
+			}
+			for _, g := range pkgGroup(li, f) {
+				if findCall(g, "(*"+configPkg+".overwritable).SetNoClear") != nil {
+					usesNoClear = true
+				}
+			}
+			r.Check(usesNoClear, "C17.R4", "Stage keeps the override (SetNoClear on a copy of the committed cell)", c.Pos(f.Pos()), "SetNoClear", "Stage does not use SetNoClear")
 		}
 		for _, f := range c.FuncsNamed("(*" + configPkg + ".ConfigProp).Overwrite") {
 			isRec := func(in ssa.Instruction) bool {
@@ -538,8 +549,8 @@ func checkC17(c *Ctx, r *Report) {
 				x, ok := in.(*ssa.Call)
 				return ok && strings.HasSuffix(calleeName(x), "atomics.Value).Store")
 			}
-			e1 := exitsFromEntryAvoiding(f, isRec, nil)
-			e2 := exitsFromEntryAvoiding(f, isStore, nil)
+			e1 := exitsFromEntryAvoiding(f, deepMarker(isRec, 0), nil)
+			e2 := exitsFromEntryAvoiding(f, deepMarker(isStore, 0), nil)
 			r.Check(len(e1) == 0 && len(e2) == 0, "C17.R4", "ConfigProp.Overwrite records the override on every path", c.Pos(f.Pos()), "every return is preceded by overwritable.Overwrite and value.Store", "ConfigProp.Overwrite can return without recording the override (e.g. when the value equals the current one): a later API update then replaces the command-line value")
 		}
 		// (d) ConfigProp.Overwrite called only from the flag handlers
@@ -978,6 +989,15 @@ func checkC18(c *Ctx, r *Report) {
 		f := fs[0]
 		ok := false
 		negs := map[string]string{"<1=true": "<1=false", "<=0=true": "<=0=false", "<0=true": "<0=false", ">100=true": ">100=false", `==""=true`: `==""=false`}
+		fieldFacts := func(ret *ssa.Return) map[string]bool {
+			out := factStrsMentioning(f, ret, nd.field)
+			for k := range factStrs(f, ret) {
+				if strings.Contains(k, "."+nd.field+")") {
+					out[k] = true
+				}
+			}
+			return out
+		}
 		eachInstr(f, func(in ssa.Instruction) {
 			ret, isRet := in.(*ssa.Return)
 			if !isRet {
@@ -985,10 +1005,7 @@ func checkC18(c *Ctx, r *Report) {
 			}
 			if isNilConst(ret.Results[0]) {
 				// success return: the refusal condition must be known false there (covers a || b forms)
-				for k := range factStrs(f, ret) {
-					if !strings.Contains(k, "."+nd.field+")") {
-						continue
-					}
+				for k := range fieldFacts(ret) {
 					for _, rel := range nd.rel {
 						if ng, has := negs[rel]; has && strings.HasSuffix(k, ng) {
 							ok = true
@@ -997,10 +1014,7 @@ func checkC18(c *Ctx, r *Report) {
 				}
 				return
 			}
-			for k := range factStrs(f, ret) {
-				if !strings.Contains(k, "."+nd.field+")") {
-					continue
-				}
+			for k := range fieldFacts(ret) {
 				if nd.field == "Type" {
 					if strings.Contains(k, "!=") && strings.HasSuffix(k, "=true") {
 						ok = true
@@ -1029,6 +1043,28 @@ func checkC18(c *Ctx, r *Report) {
 				}
 			}
 		})
+		if !ok && nd.field == "Type" {
+			// positive form: success is reported only where the type was found equal to a known one (a loop over the
+			// known types that returns nil on a match and an error after the loop)
+			nNil, allMatch := 0, true
+			eachInstr(f, func(in ssa.Instruction) {
+				ret, isRet := in.(*ssa.Return)
+				if !isRet || isRecoverReturn(ret) || !isNilConst(ret.Results[0]) {
+					return
+				}
+				nNil++
+				m := false
+				for k := range fieldFacts(ret) {
+					if strings.Contains(k, "==") && strings.HasSuffix(k, "=true") {
+						m = true
+					}
+				}
+				if !m {
+					allMatch = false
+				}
+			})
+			ok = nNil > 0 && allMatch
+		}
 		r.Check(ok, "C18.R2", key, c.Pos(f.Pos()), "refusal present ("+nd.why+")", "verify() accepts a "+nd.field+" the consumers cannot run with ("+nd.why+")")
 	}
 	// listen addresses are checked for what net.Listen needs (host:port, a port that exists), not only for being
@@ -1099,18 +1135,53 @@ func checkC18(c *Ctx, r *Report) {
 	}
 	for _, f := range c.FuncsNamed("(*" + configPkg + ".Config).verify") {
 		for _, sub := range []string{"ProxyConfig", "WebserverConfig", "CacheConfig"} {
-			call := findCall(f, "(*"+configPkg+"."+sub+").verify")
-			ok := call != nil
+			want := "(*" + configPkg + "." + sub + ").verify"
+			// the call: direct, or through a function value (a loop over a table of the sections' verify methods)
+			var site *ssa.Call
+			eachInstr(f, func(in ssa.Instruction) {
+				call, isCall := in.(*ssa.Call)
+				if !isCall || site != nil {
+					return
+				}
+				if calleeName(call) == want {
+					site = call
+					return
+				}
+				for _, g := range li.Callees[in] {
+					if fnKey(unwrapSynthetic(g)) == want || strings.TrimSuffix(funcName(g), "$bound") == want {
+						site = call
+					}
+				}
+			})
+			ok := site != nil && site.Type().String() == "error"
 			if ok {
-				// its error is returned
-				ok = false
+				// (a) its failure is Config.verify's failure: from the non-nil side every exit returns that error
+				for _, e := range exitsAvoiding(site, nil, pruneNil(f, site, false)) {
+					ret := e.(*ssa.Return)
+					if isRecoverReturn(ret) {
+						continue
+					}
+					if !derivesFrom(ret.Results[0], func(v ssa.Value) bool { return v == ssa.Value(site) }) {
+						ok = false
+					}
+				}
+				// (b) success is not reported without it: every way to a `return nil` passes the call, or the head of the
+				// loop that makes it once per table entry
+				hdr := loopHeaderOf(site.Block())
+				passes := func(in ssa.Instruction) bool {
+					return in == ssa.Instruction(site) || (hdr != nil && in.Block() == hdr)
+				}
 				eachInstr(f, func(in ssa.Instruction) {
-					if ret, isRet := in.(*ssa.Return); isRet && ret.Results[0] == ssa.Value(call) {
-						ok = true
+					ret, isRet := in.(*ssa.Return)
+					if !isRet || isRecoverReturn(ret) || !isNilConst(ret.Results[0]) {
+						return
+					}
+					if !mustPassBefore(f, ret, passes, nil) {
+						ok = false
 					}
 				})
 			}
-			r.Check(ok, "C18.R2", "Config.verify propagates "+sub+".verify", c.Pos(f.Pos()), "called and returned", "Config.verify does not call / return "+sub+".verify()")
+			r.Check(ok, "C18.R2", "Config.verify propagates "+sub+".verify", c.Pos(f.Pos()), "called on every way to success; its error is returned", "Config.verify does not call / return "+sub+".verify()")
 		}
 	}
 
@@ -1221,35 +1292,49 @@ func checkC18(c *Ctx, r *Report) {
 			if !inLoop {
 				return
 			}
-			// the exit taken when the loop is exhausted (index >= number of fields) is the one place for success
-			for _, fc := range factsAt(w, ret) {
-				bo, ok := fc.cond.(*ssa.BinOp)
+			// the exit taken when the loop is exhausted is the one place for success: a return all of whose in-loop
+			// predecessors branch to it on a loop-control test (the counter against NumField() / len)
+			isCount := func(v ssa.Value) bool {
+				call, ok := unconvNum(v).(*ssa.Call)
 				if !ok {
+					return false
+				}
+				if bi, ok := call.Call.Value.(*ssa.Builtin); ok {
+					return bi.Name() == "len"
+				}
+				n := calleeName(call)
+				return strings.HasSuffix(n, ".NumField") || strings.HasSuffix(n, ".Len")
+			}
+			isCounter := func(v ssa.Value) bool {
+				v = unconvNum(v)
+				if _, ok := v.(*ssa.Phi); ok {
+					return true
+				}
+				if bo, ok := v.(*ssa.BinOp); ok && bo.Op == token.ADD {
+					_, p := unconvNum(bo.X).(*ssa.Phi)
+					_, k := constInt(bo.Y)
+					return p && k
+				}
+				_, isK := constInt(v)
+				return isK
+			}
+			onlyControlExits := true
+			for _, p := range ret.Block().Preds {
+				if !blockInCycle(p) && !isLoopEntryTest(p, isCount) {
 					continue
 				}
-				isCount := func(v ssa.Value) bool {
-					call, ok := unconvNum(v).(*ssa.Call)
-					if !ok {
-						return false
-					}
-					if bi, ok := call.Call.Value.(*ssa.Builtin); ok {
-						return bi.Name() == "len"
-					}
-					n := calleeName(call)
-					return strings.HasSuffix(n, ".NumField") || strings.HasSuffix(n, ".Len")
+				iff, ok := p.Instrs[len(p.Instrs)-1].(*ssa.If)
+				if !ok {
+					onlyControlExits = false
+					continue
 				}
-				_, xPhi := unconvNum(bo.X).(*ssa.Phi)
-				_, yPhi := unconvNum(bo.Y).(*ssa.Phi)
-				switch {
-				case xPhi && isCount(bo.Y):
-					if bo.Op == token.LSS && !fc.truth || bo.Op == token.GEQ && fc.truth || bo.Op == token.EQL && fc.truth || bo.Op == token.NEQ && !fc.truth {
-						return
-					}
-				case yPhi && isCount(bo.X):
-					if bo.Op == token.GTR && !fc.truth || bo.Op == token.LEQ && fc.truth || bo.Op == token.EQL && fc.truth || bo.Op == token.NEQ && !fc.truth {
-						return
-					}
+				bo, ok := iff.Cond.(*ssa.BinOp)
+				if !ok || !((isCounter(bo.X) && isCount(bo.Y)) || (isCounter(bo.Y) && isCount(bo.X))) {
+					onlyControlExits = false
 				}
+			}
+			if onlyControlExits {
+				return
 			}
 			nRet++
 			vals := retVals(ret)
@@ -1469,13 +1554,7 @@ func checkC19(c *Ctx, r *Report) {
 				return
 			}
 			harg := unconv(call.Common().Args[1])
-			mc, ok := harg.(*ssa.MakeClosure)
-			var h *ssa.Function
-			if ok {
-				h = mc.Fn.(*ssa.Function)
-			} else if fn, ok := harg.(*ssa.Function); ok {
-				h = fn
-			}
+			h := closureFn(harg) // a literal, a named function, or the literal a factory hands back
 			if h == nil {
 				r.Undecided("C19.R2", fnKey(f)+": OnChange handler", c.InstrPos(call), "handler is not a function literal")
 				return
@@ -1510,7 +1589,16 @@ func checkC19(c *Ctx, r *Report) {
 					}
 				}
 			})
-			r.Check(fire != nil && store != nil && instrDominates(store, fire), "C19.R2", k+": subscribers are fired after the new value is stored", c.Pos(f.Pos()), "Store dominates Fire", "handlers that re-read the setting may still see the old value (Fire before Store)")
+			okOrder := fire != nil && store != nil && instrDominates(store, fire)
+			if fire != nil && !okOrder {
+				// the store may sit in a helper (p.modify(func…) loads, applies and stores): every way to Fire passes it
+				isStoreDeep := deepMarker(func(in ssa.Instruction) bool {
+					x, ok := in.(*ssa.Call)
+					return ok && strings.HasSuffix(calleeName(x), "atomics.Value).Store")
+				}, 0)
+				okOrder = mustPassBefore(f, fire, isStoreDeep, nil)
+			}
+			r.Check(okOrder, "C19.R2", k+": subscribers are fired after the new value is stored", c.Pos(f.Pos()), "Store dominates Fire", "handlers that re-read the setting may still see the old value (Fire before Store)")
 		}
 	}
 	// Fire is the only place that runs handlers, and it does so per goroutine (documented) — record the fact the rule relies on
@@ -1938,4 +2026,22 @@ func isNoneValue(v ssa.Value) bool {
 		return false
 	}
 	return strings.HasPrefix(calleeName(call), "reservoir/utils/typeutils.None")
+}
+
+// isLoopEntryTest: b ends in the `0 < n` test a rotated counting loop makes before its first iteration.
+func isLoopEntryTest(b *ssa.BasicBlock, isCount func(ssa.Value) bool) bool {
+	if len(b.Instrs) == 0 {
+		return false
+	}
+	iff, ok := b.Instrs[len(b.Instrs)-1].(*ssa.If)
+	if !ok {
+		return false
+	}
+	bo, ok := iff.Cond.(*ssa.BinOp)
+	if !ok {
+		return false
+	}
+	_, kx := constInt(bo.X)
+	_, ky := constInt(bo.Y)
+	return (kx && isCount(bo.Y)) || (ky && isCount(bo.X))
 }
